@@ -141,7 +141,7 @@ var S *Sim
 
 // NewSim creates the simulation; must be called inside a synctest bubble.
 func NewSim(ch *Choices) *Sim {
-	s := &Sim{Ch: ch, parkSig: make(chan struct{}, 1), StepCap: 20000, Stats: map[string]int{}, ParkMode: "line", hash: 1469598103934665603}
+	s := &Sim{Ch: ch, parkSig: make(chan struct{}, 1), StepCap: 60000, Stats: map[string]int{}, ParkMode: "line", hash: 1469598103934665603}
 	return s
 }
 
